@@ -64,6 +64,11 @@ static double site_pos[NS + 1];
 #ifdef H_EXTRA_ROWS
 static void h_extra_rows(tsk_table_collection_t *t, h_tables_t *T);
 #endif
+#ifdef H_NODE_REFS
+static void h_pre_rows(tsk_table_collection_t *t);
+static tsk_id_t h_node_pop(int j);
+static tsk_id_t h_node_ind(int j);
+#endif
 
 /* Returns 0 when a valid tree sequence was built in *ts; otherwise the path ended
  * with tag "reject" (callers return). */
@@ -99,7 +104,15 @@ h_build_treeseq(tsk_table_collection_t *t, tsk_treeseq_t *ts, h_tables_t *T)
 #else
         T->flags[j] = (h_sample_profiles[sp] >> j) & 1 ? TSK_NODE_IS_SAMPLE : 0;
 #endif
+#ifdef H_NODE_REFS
+        /* the harness supplies population / individual rows (h_pre_rows) and the references of node j */
+        if (j == 0) {
+            h_pre_rows(t);
+        }
+        ret = tsk_node_table_add_row(&t->nodes, T->flags[j], T->time[j], h_node_pop(j), h_node_ind(j), NULL, 0);
+#else
         ret = tsk_node_table_add_row(&t->nodes, T->flags[j], T->time[j], -1, -1, NULL, 0);
+#endif
         sym_assume(ret == j);
     }
     for (j = 0; j < ne; j++) {
